@@ -327,7 +327,7 @@ B_TRUST = ['clang 14 lowering at -O1 (the IR is what is verified; the native rep
 PROPS['C13'] = dict(
     engine='B', technique='symbolic execution of the LLVM IR clang emits for wrappers around the real Support<double>/Grid<double> members; indices, window bounds and grid size are 64-bit bit-vector variables; obligations against widened (non-wrapping) specifications; native ctypes replay',
     irsym=[dict(module='c13', params=dict(quick=dict(nmax_data=3, nmax_large=10), thorough=dict(nmax_data=4, nmax_large=13)))],
-    bounds=dict(quick='every public member of Support<double>: ALL 2^64 values of every index argument and of start/end of up to three supports (assumed: representation invariant), grid sizes 2..2^60-1 with abstract grid data wherever the function does not read grid points (any dereference would be reported); equality of supports on two distinct grid vectors and Grid::findElement/operator== with real element loops: grid sizes <= 3, points symbolic IEEE doubles (strictly increasing); Grid::operator== additionally on two 10-point vectors with symbolic IEEE points (element loop beyond 8 points)',
+    bounds=dict(quick='every public member of Support<double>: ALL 2^64 values of every index argument and of start/end of up to three supports (assumed: representation invariant), grid sizes 2..2^60-1 with abstract grid data wherever the function does not read grid points (any dereference would be reported); equality of supports on two distinct grid vectors and Grid::findElement/operator== with real element loops: grid sizes <= 3, points symbolic IEEE doubles (strictly increasing); Grid::findElement and Grid::operator== additionally on 10-point vectors of symbolic IEEE points (binary search and element loop beyond 8 points)',
                 thorough='grid sizes <= 4 where grid data is read'),
     outside='grids with more than 2^60-1 points (vector<double>::max_size()); more than 4 points where grid data is read; scalar types other than double (the index logic does not depend on T)',
     assumptions=['pre-state satisfies the class invariant ((start=0 and end=0) or start<end<=n, n>=2)', 'every grid is shared (use_count >= 2), so the last-owner release path is not taken', 'allocation does not fail'],
@@ -341,7 +341,7 @@ PROPS['C18'] = dict(
     irsym=[dict(module='c18', tsan_driver='tsan_driver.cpp', params=dict(quick=dict(nmax=3, gen_sizes=[2]), thorough=dict(nmax=4, gen_sizes=[2, 3])), select=dict(quick=_C18_QUICK, thorough=None)),
            dict(module='c13', checks=[2, 3], params=dict(quick=dict(nmax_data=3), thorough=dict(nmax_data=3)))],
     b_timeout_s=dict(quick=900, thorough=3000),
-    bounds=dict(quick='19 operations on Spline<double,k<=2> (evaluation on orders 1 and 2, isZero, front/back, copy construction + destruction, checkOverlap, ==, scalar multiple, operator+, operator*(Spline), X<1>/X<3>/Dx<1>/SplineOperator application (heap allocation, vector growth, memmove, all destructors), bilinear form, scalar product, linear form, generateBSplines<1> on a const generator over a 2-point grid) with windows of every operand and the grid size (2..3) as 64-bit symbolic values, grid points symbolic IEEE doubles, coefficients unconstrained; two-operand operations additionally with the operands on two distinct grid vectors (so Grid::operator== runs its element loop); Support union/intersection/equality as in C13; plus isZero, LinearForm and spline equality on supports with 9..10 intervals (grid sizes and windows concrete, points and coefficients symbolic)',
+    bounds=dict(quick='19 operations on Spline<double,k<=2> (evaluation on orders 1 and 2, isZero, front/back, copy construction + destruction, checkOverlap, ==, scalar multiple, operator+, operator*(Spline), X<1>/X<3>/Dx<1>/SplineOperator application (heap allocation, vector growth, memmove, all destructors), bilinear form, scalar product, linear form, generateBSplines<1> on a const generator over a 2-point grid) with windows of every operand and the grid size (2..3) as 64-bit symbolic values, grid points symbolic IEEE doubles, coefficients unconstrained; two-operand operations additionally with the operands on two distinct grid vectors (so Grid::operator== runs its element loop); Support union/intersection/equality as in C13; plus operator(), isZero, LinearForm and spline equality on supports with 9..10 intervals (grid sizes and windows concrete, points and coefficients symbolic); linearCombination; forms, products, sums, operator application, linearCombination and evaluation instantiated with a class-type (not trivially copyable) scalar whose operands are private to the call',
                 thorough='grids of 2..4 points; generator over 2- and 3-point grids'),
     outside='interleavings are not enumerated (the non-interference theorem is in the trusted base); operations on non-const shared objects (not promised by the library); grids above 3 (4) points; generators with other knot patterns than simple knots with doubled ends; the last-owner release of a grid (use_count >= 2 assumed for shared grids)',
     assumptions=['operands satisfy their class invariants', 'every grid involved is shared (use_count >= 2)', 'atomic read-modify-write on the use count behaves atomically (hardware/compiler)', 'C++11 thread-safe initialisation of function-local statics', 'allocation does not fail; the allocator is thread-safe'],
